@@ -228,7 +228,12 @@ class ECDSAKey(PKey):
         return m
 
     def verify_ssh_sig(self, data, msg):
-        if msg.get_text() != self.ecdsa_curve.key_format_identifier:
+        try:
+            sig_algorithm = msg.get_text()
+        except UnicodeDecodeError:
+            # an algorithm name that is not even text is not one of ours
+            return False
+        if sig_algorithm != self.ecdsa_curve.key_format_identifier:
             return False
         sig = msg.get_binary()
         sigR, sigS = self._sigdecode(sig)
